@@ -17,7 +17,11 @@ package checks
 //   binary text / empty / absent / two binary blobs (NUL byte): all pairs with
 //          a binary side (marker comparison only, as such a patch cannot be
 //          applied by git either)
-// each at context 3 (Patch.Encode) and context 0 (UnifiedEncoder(w,0), applied
+//   runs2  like runs with a multi-line first site (2 added / 2 deleted / 2 -> 1 /
+//          1 -> 2 lines): the numbers of a second hunk depend on it
+//   runs3  two insertions among IDENTICAL unchanged lines: only the header
+//          numbers decide where git apply puts a hunk
+// each at context 3 (Patch.Encode), 1, 2, 5 and context 0 (UnifiedEncoder(w,0), applied
 // with --unidiff-zero).
 //
 // Oracle: `git read-tree A; git apply --cached; git ls-files -s` must give
@@ -83,7 +87,7 @@ func c45State(s *c45Side) string {
 		return "absent"
 	case s.data == "":
 		return "empty"
-	case strings.IndexByte(s.data, 0) >= 0:
+	case strings.IndexByte(s.data, 0) >= 0 && strings.IndexByte(s.data, 0) < 8000:
 		return "binary"
 	}
 	st := "text"
@@ -223,7 +227,122 @@ func c45Cases(c *fw.Ctx) []*c45Case {
 			}
 		}
 	}
+	// runs2: the FIRST edit site changes several lines (2 added / 2 deleted /
+	// 2 replaced by 1 / 1 replaced by 2), so the line numbers of a second hunk
+	// depend on the multi-line bookkeeping of the first one
+	sites1 := []string{"ins2", "del2", "rep21", "rep12"}
+	mids2 := []int{0, 3, 6, 7, 8}
+	c.Bound("runs2_first_sites", sites1)
+	c.Bound("runs2_mid", mids2)
+	for _, p := range []int{0, 4} {
+		for _, s1 := range sites1 {
+			for _, k := range mids2 {
+				for _, s2 := range []string{"ins", "del", "rep"} {
+					for _, q := range []int{0, 4} {
+						var o, n []string
+						ln := 0
+						run := func(cnt int) {
+							for i := 0; i < cnt; i++ {
+								ln++
+								l := fmt.Sprintf("line %d", ln)
+								o = append(o, l)
+								n = append(n, l)
+							}
+						}
+						site := func(s, tag string) {
+							switch s {
+							case "ins":
+								n = append(n, "new "+tag)
+							case "del":
+								o = append(o, "old "+tag)
+							case "rep":
+								o = append(o, "old "+tag)
+								n = append(n, "new "+tag)
+							case "ins2":
+								n = append(n, "new "+tag+".1", "new "+tag+".2")
+							case "del2":
+								o = append(o, "old "+tag+".1", "old "+tag+".2")
+							case "rep21":
+								o = append(o, "old "+tag+".1", "old "+tag+".2")
+								n = append(n, "new "+tag)
+							case "rep12":
+								o = append(o, "old "+tag)
+								n = append(n, "new "+tag+".1", "new "+tag+".2")
+							}
+						}
+						run(p)
+						site(s1, "one")
+						run(k)
+						site(s2, "two")
+						run(q)
+						for _, nl := range [][2]bool{{true, true}, {true, false}} {
+							od, nd := strings.Join(o, "\n"), strings.Join(n, "\n")
+							if nl[0] && od != "" {
+								od += "\n"
+							}
+							if nl[1] && nd != "" {
+								nd += "\n"
+							}
+							hunks := "1 hunk"
+							if k > 6 {
+								hunks = "2 hunks"
+							}
+							add("runs2", &c45Side{"100644", od}, &c45Side{"100644", nd}, "(multi-line first site, "+hunks+" at context 3)", false)
+						}
+					}
+				}
+			}
+		}
+	}
+	// runs3: ALL unchanged lines are the same text, so the context of a hunk
+	// matches everywhere and only the line numbers of its header decide where
+	// git apply puts it (with distinct lines git finds the place by context
+	// and forgives wrong numbers): first site 1 or 2 added lines, second site
+	// one added line
+	for _, p := range []int{0, 4} {
+		for _, first := range []int{1, 2} {
+			for _, k := range mids2 {
+				for _, q := range []int{0, 4} {
+					var o, n []string
+					same := func(cnt int) {
+						for i := 0; i < cnt; i++ {
+							o = append(o, "same")
+							n = append(n, "same")
+						}
+					}
+					same(p)
+					for i := 0; i < first; i++ {
+						n = append(n, fmt.Sprintf("new one.%d", i+1))
+					}
+					same(k)
+					n = append(n, "new two")
+					same(q)
+					od, nd := strings.Join(o, "\n"), strings.Join(n, "\n")+"\n"
+					if od != "" {
+						od += "\n"
+					}
+					hunks := "1 hunk"
+					if k > 6 {
+						hunks = "2 hunks"
+					}
+					add("runs3", &c45Side{"100644", od}, &c45Side{"100644", nd}, "(identical context lines, "+hunks+" at context 3)", false)
+				}
+			}
+		}
+	}
+	// the binary sniff window is the first 8000 bytes (git: FIRST_FEW_BYTES):
+	// a NUL at offset 7999 makes the blob binary, at offset 8000 it does not
+	longText := strings.Repeat(strings.Repeat("x", 99)+"\n", 80)
+	nulIn := longText[:7999] + "\x00" + "\n"
+	nulOut := longText + "\x00\n"
 	bins := []*c45Side{nil, {"100644", "a\n"}, {"100644", ""}, {"100644", "a\x00b\n"}, {"100644", "\x00\x01\x02"}}
+	for _, pr := range [][2]*c45Side{
+		{{"100644", longText}, {"100644", nulIn}}, {{"100644", nulIn}, {"100644", longText}},
+		{{"100644", longText}, {"100644", nulOut}}, {{"100644", nulOut}, {"100644", longText}},
+		{nil, {"100644", nulOut}}, {{"100644", nulOut}, nil},
+	} {
+		add("binary", pr[0], pr[1], "(NUL around the 8000-byte sniff window)", true)
+	}
 	for _, o := range bins {
 		for _, n := range bins {
 			if o == n || (c45State(o) != "binary" && c45State(n) != "binary") {
@@ -434,10 +553,15 @@ func c45Apply(g *fw.Git, treeA string, secs []*c45Section, zero bool, idxFile st
 	return failed, listing
 }
 
+// context sizes: the default 3 (Patch.Encode), 0, and sizes on both sides of
+// the lengths of the unchanged runs (1, 2 < 3 < 5 > 4): the hunk generator
+// compares run lengths with ctxLines and 2*ctxLines everywhere.
+var c45Contexts = []int{3, 0, 1, 2, 5}
+
 func runC45(c *fw.Ctx) {
 	cases := c45Cases(c)
 	c.Bound("cases", len(cases))
-	c.Bound("context_lines", []int{3, 0})
+	c.Bound("context_lines", c45Contexts)
 	fam := map[string]int{}
 	for _, cs := range cases {
 		fam[cs.fam]++
@@ -525,6 +649,8 @@ func runC45(c *fw.Ctx) {
 		defer pool.put(st)
 		var patch *object.Patch
 		var p3, p0 string
+		pOther := map[int]string{} // contexts other than 3 and 0
+		var altWhat string         // other entry points disagreeing with Tree.Patch + Encode
 		var stats object.FileStats
 		var errS string
 		pan := fRecover(func() {
@@ -554,6 +680,48 @@ func runC45(c *fw.Ctx) {
 			}
 			p3, p0 = w3.String(), w0.String()
 			stats = patch.Stats()
+			for _, ctx := range c45Contexts[2:] {
+				var w bytes.Buffer
+				if err := fdiff.NewUnifiedEncoder(&w, ctx).Encode(patch); err != nil {
+					errS = fmt.Sprintf("UnifiedEncoder(%d).Encode: %v", ctx, err)
+					return
+				}
+				pOther[ctx] = w.String()
+			}
+			// the other entry points must print the same patch: Patch.String,
+			// Changes.Patch (on fresh Tree values) and one Change.Patch per change
+			if got := patch.String(); got != p3 {
+				altWhat = "Patch.String() differs from Patch.Encode()"
+				return
+			}
+			ta2, _ := object.GetTree(st, plumbing.NewHash(treeA))
+			tb2, _ := object.GetTree(st, plumbing.NewHash(treeB))
+			chs, err := ta2.Diff(tb2)
+			if err != nil {
+				errS = "Tree.Diff: " + err.Error()
+				return
+			}
+			cp, err := chs.Patch()
+			if err != nil {
+				errS = "Changes.Patch: " + err.Error()
+				return
+			}
+			if got := cp.String(); got != p3 {
+				altWhat = "Changes.Patch().String() differs from Tree.Patch().Encode()"
+				return
+			}
+			var one strings.Builder
+			for _, ch := range chs {
+				chp, err := ch.Patch()
+				if err != nil {
+					errS = "Change.Patch: " + err.Error()
+					return
+				}
+				one.WriteString(chp.String())
+			}
+			if one.String() != p3 {
+				altWhat = "the concatenation of Change.Patch().String() over Tree.Diff differs from Tree.Patch().Encode()"
+			}
 		})
 		if pan != "" || errS != "" {
 			// a whole batch failing: report against its first case
@@ -563,6 +731,9 @@ func runC45(c *fw.Ctx) {
 			}
 			fmu.add("patch generation fails: "+c45NumRe.ReplaceAllString(msg, "N"), mine[0], msg, map[string]any{"batch": b})
 			return
+		}
+		if altWhat != "" {
+			fmu.add("entry points disagree: "+altWhat, mine[0], altWhat, map[string]any{"batch": b})
 		}
 		// git side
 		numstat := map[string]string{}
@@ -596,10 +767,12 @@ func runC45(c *fw.Ctx) {
 		for _, s := range stats {
 			goStats[s.Name] = fmt.Sprintf("%d %d", s.Addition, s.Deletion)
 		}
-		for ci, ctx := range []int{3, 0} {
+		for ci, ctx := range c45Contexts {
 			text := p3
 			if ctx == 0 {
 				text = p0
+			} else if ctx != 3 {
+				text = pOther[ctx]
 			}
 			secs := c45Split(text)
 			secOf := map[string]*c45Section{}
@@ -853,6 +1026,7 @@ var c45HunkRe = regexp.MustCompile(`^@@ -([0-9]+)(?:,([0-9]+))? \+([0-9]+)(?:,([
 // hunks (used only to NAME a failure class, never to decide a verdict).
 func c45NewStartWrong(section string, nw *c45Side) bool {
 	delta := 0
+	wrong := false
 	for _, l := range strings.Split(section, "\n") {
 		m := c45HunkRe.FindStringSubmatch(l)
 		if m == nil {
@@ -875,11 +1049,17 @@ func c45NewStartWrong(section string, nw *c45Side) bool {
 			want--
 		}
 		if ns != want {
-			return true
+			// the ONE known defect: a hunk that deletes and adds lines gets
+			// the line before it as new-side start (exactly one too small);
+			// any other deviation is a different defect and keeps its own key
+			if !(oc > 0 && nc > 0 && ns == want-1) {
+				return false
+			}
+			wrong = true
 		}
 		delta += nc - oc
 	}
-	return false
+	return wrong
 }
 
 func c45Show(s *c45Side) any {
